@@ -79,6 +79,10 @@ def score_block(case):
     else:
         kw, y, A = {}, None, None
     default_affinity = tag in ("linear", "euclidean")
+    scale = None
+    if A is not None:
+        mag = float(np.abs(np.asarray(A, dtype=float)).max())
+        scale = np.sqrt(mag) if family == "mmd" else mag
     targets = _targets(family, kw, default_affinity)
     v, nt, n_eval, outs = [], 0, 0, []
     for P in _P_iter(K, n, first, generic_seed):
@@ -92,7 +96,7 @@ def score_block(case):
             got_aff = g.compute_affinity(X, y)
             got = float(g(P.copy(), got_aff))
             n_eval += 1
-            if abs(got - expected) > ref.tol(dist, expected, slack) or not np.isfinite(got):
+            if abs(got - expected) > ref.tol(dist, expected, slack, scale) or not np.isfinite(got):
                 v.append(violation("score_mismatch", {"target": label, "P": P, "affinity": tag, "got": got, "expected": expected},
                                    target=label, dist=dist, mode=mode, K=K, n=n, via="call"))
             if abs(expected - ref.lower_bound(dist)) > 1e-6:
@@ -104,7 +108,7 @@ def score_block(case):
                 m = _stub(P, g)
             got2 = m.score(X, y)
             n_eval += 1
-            if abs(got2 - expected) > ref.tol(dist, expected, slack):
+            if abs(got2 - expected) > ref.tol(dist, expected, slack, scale):
                 v.append(violation("score_mismatch", {"target": label, "P": P, "affinity": tag, "got": got2, "expected": expected},
                                    target=label, dist=dist, mode=mode, K=K, n=n, via="model.score"))
         # memory layout of the arguments must not matter (Fortran order, non-contiguous views), on the first matrices of the shard
